@@ -364,14 +364,23 @@ func vfC10Redirect(id string, f []string) string {
 		herr = fmt.Errorf("client handshake timed out")
 	}
 	// quiescence: nothing new on the tap for a few milliseconds (two writers may be racing for the connection)
+	// and, when the connection was relayed, everything the decoy sent has come through (on a starved machine the relay
+	// may need a long time: the bound is generous and only reached when bytes really never arrive)
 	last, stable := -1, 0
-	for i := 0; i < 400 && stable < 6; i++ {
+	for i := 0; i < 40000; i++ {
 		time.Sleep(500 * time.Microsecond)
 		_, wr, _ := link.tap.snapshot()
 		if len(wr) == last {
 			stable++
 		} else {
 			stable, last = 0, len(wr)
+		}
+		decoy.mu.Lock()
+		nd, no := decoy.dials, len(decoy.out)
+		decoy.mu.Unlock()
+		complete := nd == 0 || (no > 0 && len(wr) >= no)
+		if stable >= 6 && (complete || i > 4000) {
+			break
 		}
 	}
 	_, wr, writes := link.tap.snapshot()
